@@ -2,7 +2,8 @@
 import re
 
 from .. import obs as O
-from .common import Contract, ansi_values, history, run_cases, tier_sizes, safe_obs, settings_texts
+from .common import (Contract, ansi_values, history, run_cases, tier_sizes, safe_obs, settings_texts, small_scope_values,
+                     small_scope_on)
 from ..gen import gen_matchspec, gen_settings
 
 PROP = 'C16'
@@ -128,6 +129,29 @@ def drive(ctx, mon, tier, only_case=None):
     sz = tier_sizes(tier)
 
     def body(rng, ex, case):
+        if case == 0:
+            # bounded-exhaustive part: every small-scope value x a fixed battery of match specs
+            m = small_scope_on(ctx, tier)
+            nv = 0
+            pats = [('a', {}), ('B', {}), ('B', {'match_case': True}), ('bc', {'count': 1}), ('[ab]', {'regex': True}),
+                    ('[ab]', {}), ('b*', {'regex': True}), ('', {}), ('.', {'regex': True, 'count': 2}), ('x', {}),
+                    ('a|cd', {'regex': True}), ('(?=c)', {'regex': True})]
+            for v, _ in small_scope_values(L, m, ctx.shard, ctx.extra.get('nshards', 1)):
+                nv += 1
+                for pat, kw in pats:
+                    for which in range(4):
+                        with mon.quiet():
+                            t = L.AnsiString(v) if which < 3 or True else None
+                        if which == 0:
+                            t.format_matching(pat, 'blue', **kw)
+                        elif which == 1:
+                            t.format_matching(pat, 'bold', 'red', **kw)
+                        elif which == 2:
+                            t.unformat_matching(pat, '[31', **kw)
+                        else:
+                            t.unformat_matching(pat, **kw)
+            ctx.extra['n_small_scope_values'] = nv
+            return
         profile = 'mixed' if rng.random() < 0.25 else 'wf'
         history(L, rng, ex, rng.randint(1, sz['nops']), sz['maxlen'], profile, WEIGHTS)
         for v in ansi_values(L, ex)[-5:]:
